@@ -16,7 +16,9 @@ import (
 
 	"cosmossdk.io/math"
 	sdk "github.com/cosmos/cosmos-sdk/types"
+	testkeeper "github.com/lavanet/lava/v5/testutil/keeper"
 	pairingtypes "github.com/lavanet/lava/v5/x/pairing/types"
+	planstypes "github.com/lavanet/lava/v5/x/plans/types"
 	subscriptionkeeper "github.com/lavanet/lava/v5/x/subscription/keeper"
 	subscriptiontypes "github.com/lavanet/lava/v5/x/subscription/types"
 	"github.com/lavanet/lava/v5/zz_verif/simrt"
@@ -97,9 +99,9 @@ func (m *c11Mon) afterBlock() {
 	}
 	now := uint64(s.Now().Unix())
 	credits := math.ZeroInt()
-	zeroGone := math.ZeroInt()              // credit of zero-CU months whose subscription is gone: goes to the validators pool
-	paidUpper := math.ZeroInt()             // upper bound of what CU-bearing months may pay out
-	returned := map[string]math.Int{}       // consumer -> credit that must come back to the live subscription
+	zeroGone := math.ZeroInt()        // credit of zero-CU months whose subscription is gone: goes to the validators pool
+	paidUpper := math.ZeroInt()       // upper bound of what CU-bearing months may pay out
+	returned := map[string]math.Int{} // consumer -> credit that must come back to the live subscription
 	lo, hi := map[string]math.Int{}, map[string]math.Int{}
 	add := func(mp map[string]math.Int, k string, v math.Int) {
 		if cur, ok := mp[k]; ok {
@@ -273,13 +275,25 @@ func (s *Sim) opC11Relays() {
 	for i := 0; i < n; i++ {
 		p := paired[r.Draw("ops", len(paired))]
 		var cu uint64
-		switch mode {
-		case 0:
-			cu = uint64(1 + r.Draw("ops", 4))
-		case 1:
-			cu = uint64(1 + r.Draw("ops", 2000))
-		default:
-			cu = uint64(1 + r.Draw("ops", 60))
+		if c11Huge && c11HugeLeft > 0 && r.Draw("c11huge", 3) == 1 {
+			// a CU sum near the uint64 range (the run's plan0 allows it): 2^62 .. 2^63+. At most one such
+			// relay per run, so that the month's tracked total stays BELOW 2^64: lava accepts a relay in
+			// full while any monthly CU is left, so several of them in one month make the tracked total
+			// itself exceed uint64 (GetSubTrackedCuInfo sums in uint64 and wraps: payout above the
+			// credit, negative coin panic in EndBlock) — that needs plan limits near 2^64 AND more CU in
+			// a month than the plan allows, recorded in DESIGN.md as an observation, not generated.
+			c11HugeLeft--
+			cu = []uint64{1 << 62, 1 << 63, 1<<63 + 12345, 3 << 61, 1<<62 + 7}[r.Draw("c11huge", 5)]
+			r.Probe("c11_relay_with_cu_near_uint64_range")
+		} else {
+			switch mode {
+			case 0:
+				cu = uint64(1 + r.Draw("ops", 4))
+			case 1:
+				cu = uint64(1 + r.Draw("ops", 2000))
+			default:
+				cu = uint64(1 + r.Draw("ops", 60))
+			}
 		}
 		s.sessionSeq++
 		rs := RelaySpec{Consumer: c, Signer: signer, Provider: p, Spec: spec.Index, Epoch: int64(s.EpochStart()), Session: s.sessionSeq, CuSum: cu, RelayNum: 1}
@@ -303,11 +317,32 @@ func c11Weights() map[string]int {
 	return w
 }
 
+// c11Huge: the current run's plan0 allows CU near the uint64 range (see runC11)
+var c11Huge bool
+var c11HugeLeft int
+
 func runC11(r *simrt.Run) {
 	c13Reset()
 	cfg := mkCfg(r, c11Weights(), 70, 400)
 	cfg.NPlans = 2 + r.Draw("cfg", 3)
 	s := NewSim(r, cfg)
+	// one run in three (new stream: old tapes read 0 = off): plan0 is modified in place at genesis to
+	// allow CU sums up to the uint64 range, and some relays then carry 2^62..2^63+ CU
+	c11Huge = false
+	if r.Draw("c11huge", 3) == 1 {
+		if p, found := s.K.Plans.FindPlan(s.Ctx, "plan0", s.Height()); found {
+			p.PlanPolicy.TotalCuLimit = ^uint64(0)
+			p.PlanPolicy.EpochCuLimit = ^uint64(0)
+			if err := testkeeper.SimulatePlansAddProposal(s.Ctx, s.K.Plans, []planstypes.Plan{p}, true); err == nil {
+				c11Huge = true
+				c11HugeLeft = 1
+				r.Probe("c11_plan_allows_cu_near_uint64_range")
+			} else {
+				r.Logf("huge plan0 refused: %v", err)
+			}
+		}
+	}
+	defer func() { c11Huge = false }()
 	s.c13AddPoor(1 + r.Draw("cfg", 2))
 	m := &c11Mon{s: s, paid: map[string]bool{}}
 	for _, c := range s.Consumers {
